@@ -173,3 +173,294 @@ Proof.
   - exists [d]. split; reflexivity.
   - exists [d; s]. split; reflexivity.
 Qed.
+
+(** ** What [gen_trait_def] / [gen_impl_block] / [analyze] produce *)
+Lemma flat_map_singleton {A B} (f : A -> B) (l : list A) : flat_map (fun x => [f x]) l = map f l.
+Proof. induction l; simpl; congruence. Qed.
+
+Lemma trait_sigs_gen_trait_def o ti mode subs lit v name tg colon supers fns im :
+  trait_sigs (gen_trait_def o ti mode subs lit v name tg colon supers fns im)
+  = map (fun tf => (tf_attrs tf, make_trait_fn_sig (tf_sig tf) subs o)) fns.
+Proof.
+  unfold trait_sigs, gen_trait_def. cbn [t_items].
+  induction fns as [|tf fns IH]; [reflexivity|]. cbn [map flat_map app]. rewrite IH. reflexivity.
+Qed.
+
+Lemma only_trait_fns_gen_trait_def o ti mode subs lit v name tg colon supers fns im :
+  only_trait_fns (gen_trait_def o ti mode subs lit v name tg colon supers fns im) = true.
+Proof. unfold only_trait_fns, gen_trait_def. cbn [t_items]. induction fns; simpl; auto. Qed.
+
+(** the body of a delegating method of [gen_impl_block] *)
+Definition deleg_body (ind : impl_indirection) (im : input_mode) (tf : trait_fn) (args : list toks) : toks :=
+  let s := tf_sig tf in
+  let self_comma :=
+    match tf_deps tf, p_items (s_inputs s), ind with
+    | DNoDeps, _, _ => []
+    | _, [], _ => []
+    | _, _, (IStatic _ | IDynamic _) => []
+    | _, _ :: _, INone => [TId "self"; comma]
+    end in
+  let scoping := match im with MImplBlock => [TId "Self"] ++ path_sep | _ => [] end in
+  [TG Brace (scoping ++ [TId (s_name s); TG Paren (self_comma ++ join [comma] args)] ++
+             (if tf_async tf then [pc "."; TId "await"] else []))].
+
+Lemma delegating_fn_inv ind im tf it :
+  delegating_fn ind im tf = Ok it ->
+  exists args, call_args (p_items (s_inputs (tf_sig tf))) = Ok args /\
+               it = IIFn (tf_attrs tf) [] (tf_sig tf) (deleg_body ind im tf args).
+Proof. unfold delegating_fn. intros H. inv_ok H. injection H0 as <-. exists a. split; [exact E | reflexivity]. Qed.
+
+Definition with_t_of (mode : trait_dep_mode) : bool := match mode with MGeneric => true | MConcrete _ => false end.
+
+Lemma gen_impl_block_inv o tref ind tg im mode subs fns ib :
+  gen_impl_block o tref ind tg im mode subs fns = Ok ib ->
+  exists items,
+    Forall2 (fun tf it => delegating_fn ind im tf = Ok it) fns items /\
+    ib = mkImpl (filter is_async_trait subs) false
+                (mkGen true (p_of_list (impl_params (with_t_of mode) (has_any_self_by_value fns) (tg_params tg)))
+                       (where_of_list (impl_where mode ind fns tg)))
+                (Some (tref ++ print_arguments (match ind with INone => false | _ => true end) (tg_params tg)))
+                (self_ty mode ind o) items.
+Proof.
+  unfold gen_impl_block. intros H. inv_ok H. injection H0 as <-. exists a. split; [apply map_res_ok; exact E | reflexivity].
+Qed.
+
+Lemma impl_fns_of_items ind im : forall fns items,
+  Forall2 (fun tf it => delegating_fn ind im tf = Ok it) fns items ->
+  exists argss, Forall2 (fun tf args => call_args (p_items (s_inputs (tf_sig tf))) = Ok args) fns argss /\
+    items = map (fun '(tf, args) => IIFn (tf_attrs tf) [] (tf_sig tf) (deleg_body ind im tf args)) (combine fns argss).
+Proof.
+  induction 1 as [|tf it fns items H _ IH].
+  - exists []. split; [constructor | reflexivity].
+  - destruct IH as (argss & F & ->). destruct (delegating_fn_inv _ _ _ _ H) as (args & Hc & ->).
+    exists (args :: argss). split; [constructor; assumption | reflexivity].
+Qed.
+
+Lemma analyze_inv k o tg s tf tg' :
+  analyze k o tg s = Ok (tf, tg') ->
+  exists deps s', analyze_fn_deps tg s o = Ok (deps, tg') /\ convert_sig k deps s = Ok s' /\
+                  tf = mkTF deps [] s' (s_async s).
+Proof.
+  unfold analyze. intros H. inv_ok H. destruct a as [deps tg1]. inv_ok H0. injection H1 as <- <-.
+  exists deps, a. repeat split; assumption.
+Qed.
+
+Definition stripped_inputs (s : sig) : punct fnarg :=
+  mkP (map strip_arg_attrs (p_items (s_inputs s))) (p_trail (s_inputs s)).
+
+Lemma convert_sig_inv k deps s s' :
+  convert_sig k deps s = Ok s' ->
+  exists inputs1 args,
+    generate_params k deps (stripped_inputs s) = Ok inputs1 /\
+    fix_fn_param_idents (s_name s) (p_items inputs1) = Ok args /\
+    s' = mkSig (s_const s) (s_async s) (s_unsafe s) (s_abi s) (s_name s) (convert_generics deps (s_gen s))
+               (mkP args (p_trail inputs1)) (s_variadic s) (s_output s).
+Proof.
+  unfold convert_sig. fold (stripped_inputs s). intros H. inv_ok H. inv_ok H0. injection H1 as <-.
+  exists a, a0. repeat split; assumption.
+Qed.
+
+(** [analyze_fn_deps]: [DNoDeps] iff [no_deps]; otherwise the first parameter is a typed one *)
+Lemma extract_not_nodeps : forall ty tg g d tg', extract_deps_from_type tg g ty = Ok (d, tg') -> d <> DNoDeps.
+Proof.
+  induction ty as [l m e IH|e IH|tr bs|q lead n f ts|ts]; intros tg g d tg' H; simpl in H.
+  - eapply IH; exact H.
+  - eapply IH; exact H.
+  - injection H as <- _. discriminate.
+  - destruct q; [discriminate|]. destruct lead; [discriminate|].
+    destruct (negb (n =? 1)); [injection H as <- _; discriminate|].
+    destruct (find_deps_generic_bounds tg g f) as [[d0 tg0]|] eqn:E.
+    + injection H as <- _. unfold find_deps_generic_bounds in E.
+      destruct (find_type_param f (p_items (g_params g)) 0) as [[idx p]|]; [|discriminate].
+      destruct (fold_left _ _ _). injection E as <- _. discriminate.
+    + injection H as <- _. discriminate.
+  - injection H as <- _. discriminate.
+Qed.
+
+Lemma analyze_fn_deps_cases tg s o deps tg' :
+  analyze_fn_deps tg s o = Ok (deps, tg') ->
+  (no_deps_value o = true /\ deps = DNoDeps) \/
+  (no_deps_value o = false /\ deps <> DNoDeps /\
+   exists attrs p ty rest, p_items (s_inputs s) = ArgTyped attrs p ty :: rest /\
+                           extract_deps_from_type tg (s_gen s) ty = Ok (deps, tg')).
+Proof.
+  unfold analyze_fn_deps. destruct (no_deps_value o).
+  - intros H. injection H as <- _. left. auto.
+  - destruct (p_items (s_inputs s)) as [|[x r m c|x p ty] rest]; try discriminate.
+    intros H. right. split; [reflexivity|]. split; [eapply extract_not_nodeps; exact H|].
+    do 4 eexists. split; [reflexivity | exact H].
+Qed.
+
+(** the parameters handed to [fix_fn_param_idents]: the generated receiver(s), then the source
+    parameters after the dependency *)
+Definition gen_prefix (k : receiver_kind) (reference : option (option string)) : list fnarg :=
+  match k with
+  | RSelfRef => [self_receiver reference]
+  | RStaticImpl => [impl_receiver]
+  | RDynamicImpl => [self_receiver reference; impl_receiver]
+  end.
+
+Definition first_ref (l : list fnarg) : option (option string) :=
+  match l with ArgTyped _ _ (TyRef lt _ _) :: _ => Some lt | _ => None end.
+
+Lemma p_insert_0 {A} (x : A) (p : punct A) : p_items (p_insert 0 x p) = x :: p_items p.
+Proof. unfold p_insert, p_len, p_push. destruct p as [[|y ys] tr]; reflexivity. Qed.
+
+Lemma p_insert_1 {A} (x y : A) (l : list A) tr : p_items (p_insert 1 x (mkP (y :: l) tr)) = y :: x :: l.
+Proof. unfold p_insert, p_len, p_push. destruct l; reflexivity. Qed.
+
+Lemma generate_params_items k deps inputs inputs1 :
+  generate_params k deps inputs = Ok inputs1 ->
+  (deps = DNoDeps /\ p_items inputs1 = gen_prefix k (Some None) ++ p_items inputs) \/
+  (deps <> DNoDeps /\ p_items inputs = [] /\ k <> RDynamicImpl /\ inputs1 = inputs) \/
+  (deps <> DNoDeps /\ exists a p ty rest, p_items inputs = ArgTyped a p ty :: rest /\
+                      p_items inputs1 = gen_prefix k (first_ref (p_items inputs)) ++ rest).
+Proof.
+  unfold generate_params. intros H. inv_ok H. destruct deps as [pn b|ty|].
+  - right. destruct (p_items inputs) as [|[x r m c|x p ty] rest] eqn:Ei; [|discriminate|].
+    + injection E as <-. left.
+      destruct k; [| |exfalso; unfold p_len in H0; rewrite Ei in H0; discriminate];
+        injection H0 as <-; repeat split; try discriminate; try assumption.
+    + right. split; [discriminate|]. exists x, p, ty, rest. split; [reflexivity|].
+      destruct ty; injection E as <-; destruct k; cbn [gen_first_receiver] in H0; try (injection H0 as <-; reflexivity);
+      (unfold p_len in H0; cbn in H0; injection H0 as <-; rewrite p_insert_1; reflexivity).
+  - right. destruct (p_items inputs) as [|[x r m c|x p ty0] rest] eqn:Ei; [|discriminate|].
+    + injection E as <-. left.
+      destruct k; [| |exfalso; unfold p_len in H0; rewrite Ei in H0; discriminate];
+        injection H0 as <-; repeat split; try discriminate; try assumption.
+    + right. split; [discriminate|]. exists x, p, ty0, rest. split; [reflexivity|].
+      destruct ty0; injection E as <-; destruct k; cbn [gen_first_receiver] in H0; try (injection H0 as <-; reflexivity);
+      (unfold p_len in H0; cbn in H0; injection H0 as <-; rewrite p_insert_1; reflexivity).
+  - left. split; [reflexivity|]. injection E as <-.
+    destruct k; cbn [gen_first_receiver] in H0.
+    + injection H0 as <-. apply p_insert_0.
+    + injection H0 as <-. apply p_insert_0.
+    + destruct (p_len (p_insert 0 (self_receiver (Some None)) inputs) <? 1) eqn:El; [discriminate|].
+      injection H0 as <-. destruct inputs as [its tr]. 
+      replace (p_insert 0 (self_receiver (Some None)) (mkP its tr)) with (mkP (self_receiver (Some None) :: its) (match its with [] => false | _ => tr end)).
+      * rewrite p_insert_1. reflexivity.
+      * unfold p_insert, p_len, p_push. destruct its; reflexivity.
+Qed.
+
+Lemma combine_map_fst {A B} : forall (l : list A) (l' : list B), List.length l = List.length l' -> map fst (combine l l') = l.
+Proof. induction l as [|a l IH]; intros [|b l'] H; simpl in *; try discriminate; [reflexivity|]. f_equal. apply IH. lia. Qed.
+
+Lemma Forall2_length' {A B} (P : A -> B -> Prop) l l' : Forall2 P l l' -> List.length l = List.length l'.
+Proof. induction 1; simpl; congruence. Qed.
+
+(** the methods of the generated impl block, one per trait fn, in order *)
+Lemma gen_impl_block_fns o tref ind tg im mode subs fns ib :
+  gen_impl_block o tref ind tg im mode subs fns = Ok ib ->
+  exists argss,
+    Forall2 (fun tf args => call_args (p_items (s_inputs (tf_sig tf))) = Ok args) fns argss /\
+    impl_fns ib = map (fun '(tf, args) => (tf_attrs tf, tf_sig tf, deleg_body ind im tf args)) (combine fns argss) /\
+    only_impl_fns ib = true /\
+    i_attrs ib = filter is_async_trait subs /\
+    i_self ib = self_ty mode ind o /\
+    i_gen ib = mkGen true (p_of_list (impl_params (with_t_of mode) (has_any_self_by_value fns) (tg_params tg)))
+                     (where_of_list (impl_where mode ind fns tg)) /\
+    i_trait ib = Some (tref ++ print_arguments (match ind with INone => false | _ => true end) (tg_params tg)).
+Proof.
+  intros H. destruct (gen_impl_block_inv _ _ _ _ _ _ _ _ _ H) as (items & F & ->).
+  destruct (impl_fns_of_items _ _ _ _ F) as (argss & Fa & ->). exists argss. split; [exact Fa|].
+  unfold impl_fns, only_impl_fns. cbn [i_items i_attrs i_self i_gen i_trait]. clear H F Fa.
+  repeat split.
+  - induction (combine fns argss) as [|[tf args] l IH]; [reflexivity|]. cbn [map flat_map app]. rewrite IH. reflexivity.
+  - induction (combine fns argss) as [|[tf args] l IH]; [reflexivity|]. cbn [map forallb]. exact IH.
+Qed.
+
+Lemma impl_fns_sigs fns argss (f : trait_fn * list toks -> list attr * sig * toks) :
+  List.length fns = List.length argss ->
+  (forall tf args, let '(_, s, _) := f (tf, args) in s = tf_sig tf) ->
+  map (fun '(_, s, _) => s) (map f (combine fns argss)) = map tf_sig fns.
+Proof.
+  intros Hl Hf. rewrite map_map. rewrite <- (combine_map_fst fns argss Hl) at 2. rewrite map_map.
+  apply map_ext. intros [tf args]. specialize (Hf tf args). destruct (f (tf, args)) as [[a s] b]. simpl. exact Hf.
+Qed.
+
+Lemma with_cfg_attrs_sigs : forall fns src, map tf_sig (with_cfg_attrs fns src) = map tf_sig fns.
+Proof.
+  induction fns as [|tf fns IH]; intros [|[[[a v] s] b] src]; simpl; try reflexivity. rewrite IH. reflexivity.
+Qed.
+
+Lemma with_cfg_attrs_deps : forall fns src, map tf_deps (with_cfg_attrs fns src) = map tf_deps fns.
+Proof.
+  induction fns as [|tf fns IH]; intros [|[[[a v] s] b] src]; simpl; try reflexivity. rewrite IH. reflexivity.
+Qed.
+
+Lemma with_cfg_attrs_async : forall fns src, map tf_async (with_cfg_attrs fns src) = map tf_async fns.
+Proof.
+  induction fns as [|tf fns IH]; intros [|[[[a v] s] b] src]; simpl; try reflexivity. rewrite IH. reflexivity.
+Qed.
+
+Lemma analyze_all_length k o : forall sigs tg fns tg', analyze_all k o tg sigs = Ok (fns, tg') -> List.length fns = List.length sigs.
+Proof.
+  induction sigs as [|s sigs IH]; intros tg fns tg' H; simpl in H.
+  - injection H as <- _. reflexivity.
+  - inv_ok H. destruct a as [tf tg1]. inv_ok H0. destruct a as [tfs tg2]. injection H1 as <- _. simpl. f_equal. eapply IH; exact E0.
+Qed.
+
+(** what [analyze_fn_deps] + [generate_params] hand to the renaming *)
+Lemma strip_desired a : desired_name (strip_arg_attrs a) = desired_name a.
+Proof. destruct a; reflexivity. Qed.
+Lemma strip_is_typed a : is_typed (strip_arg_attrs a) = is_typed a.
+Proof. destruct a; reflexivity. Qed.
+
+Lemma inputs1_shape k o tg s deps tg' inputs1 :
+  analyze_fn_deps tg s o = Ok (deps, tg') ->
+  generate_params k deps (stripped_inputs s) = Ok inputs1 ->
+  exists reference,
+    p_items inputs1 = gen_prefix k reference ++
+                      map strip_arg_attrs (if no_deps_value o then p_items (s_inputs s) else tl (p_items (s_inputs s))) /\
+    (deps = DNoDeps <-> no_deps_value o = true).
+Proof.
+  intros Ha Hg.
+  destruct (analyze_fn_deps_cases _ _ _ _ _ Ha) as [[Hn ->]|(Hn & Hd & x & p & ty & rest & Hi & _)]; rewrite Hn.
+  - destruct (generate_params_items _ _ _ _ Hg) as [[_ Hp]|[(Hd & _)|(Hd & _)]]; try congruence.
+    exists (Some None). split; [exact Hp | tauto].
+  - destruct (generate_params_items _ _ _ _ Hg) as [[Hd' _]|[(_ & He & _)|(_ & x' & p' & ty' & rest' & Hi' & Hp)]]; try congruence.
+    + unfold stripped_inputs in He. cbn [p_items] in He. rewrite Hi in He. discriminate.
+    + eexists. split; [rewrite Hp|split; [congruence | congruence]].
+      unfold stripped_inputs in Hi'. cbn [p_items] in Hi'. rewrite Hi in Hi'. cbn [map] in Hi'. injection Hi' as _ _ _ <-.
+      rewrite Hi. reflexivity.
+Qed.
+
+(** ** option parsers: invariants of the accumulating loops *)
+Lemma opt_loop_inv {S} (P : S -> Prop) (set : S -> eopt -> result S) :
+  (forall st e st', P st -> set st e = Ok st' -> P st') ->
+  forall fuel ts st r, P st -> opt_loop set fuel ts st = Ok r -> P (fst r).
+Proof.
+  intros Hset. induction fuel as [|k IH]; intros ts st r HP H; simpl in H; [discriminate|].
+  inv_ok H. destruct a as [e rest]. inv_ok H0.
+  destruct rest as [|[s|c|s|d g] rest']; try (injection H1 as <-; simpl; eapply Hset; eassumption).
+  destruct (Ascii.eqb c ","%char) eqn:Ec.
+  - apply Ascii.eqb_eq in Ec. subst c. eapply IH; [|exact H1]. eapply Hset; eassumption.
+  - assert (Hr : Ok (a, TP c :: rest') = Ok r).
+    { revert H1. destruct c as [[] [] [] [] [] [] [] []]; try (intros H1; exact H1). discriminate Ec. }
+    injection Hr as <-. simpl. eapply Hset; eassumption.
+Qed.
+
+Definition only_debug (o : opts) : Prop :=
+  o_no_deps o = None /\ o_export o = None /\ o_future_send o = None /\ o_mock_api o = None /\
+  o_unimock o = None /\ o_mockall o = None.
+
+Lemma parse_impl_attr_only_debug ts a : parse_impl_attr ts = Ok a -> only_debug (ia_opts a).
+Proof.
+  unfold parse_impl_attr.
+  match goal with |- context [let '(a, b) := ?X in _] => destruct X as [has_ref r1] end.
+  match goal with |- context [let '(a, b) := ?X in _] => destruct X as [has_dyn r2] end.
+  destruct r2 as [|t r2'].
+    + intros H. injection H as <-. repeat split.
+    + intros H. inv_ok H. destruct a0 as [o leftover]. destruct leftover; [|discriminate]. injection H0 as <-.
+      assert (Hset : forall st e st', only_debug st -> set_impl_opt st e = Ok st' -> only_debug st').
+      { intros st e st' HP Hs. destruct e; simpl in Hs; try discriminate. injection Hs as <-.
+        destruct HP as (? & ? & ? & ? & ? & ?). repeat split; assumption. }
+      assert (Hinit : only_debug no_opts) by (repeat split; reflexivity).
+      exact (opt_loop_inv only_debug set_impl_opt Hset _ _ _ _ Hinit E).
+Qed.
+
+Lemma impl_no_deps v ts a : parse_impl_attr ts = Ok a -> no_deps_value (apply_variant v (ia_opts a)) = false.
+Proof.
+  intros H. destruct (parse_impl_attr_only_debug _ _ H) as (Hn & _). unfold no_deps_value.
+  destruct v; cbn [apply_variant o_no_deps]; rewrite Hn; reflexivity.
+Qed.
